@@ -309,6 +309,10 @@ def bounded_masks_instance():
             res.update(s=x, q=q, out=mm.quantile_mask(x, quantile=q, axis=-1))
         else:
             x = rng.normal(size=(rng.randint(8, 20), rng.randint(2, 6))) + 1j * rng.normal(size=(1, 1))
+            if inp['ties']:
+                # small integers: many points of exactly equal power (|x|^2 is exact), at least one non-zero
+                x = rng.randint(-3, 4, size=x.shape).astype(float) + 0j
+                x[0, 0] = 2.0
             fr = float(rng.choice([0.98, 0.9, 0.5]))
             res.update(s=x, frac=fr, out=mm.lorenz_mask(x, lorenz_fraction=fr))
         return res
